@@ -17,6 +17,61 @@ def out_path(tool):
     return OUT_PNG if tool == "veftopng" else OUT_PATH
 
 
+# file-name styles: plain, blanks in directory and file names, relative to the working
+# directory, non-ASCII
+NAME_STYLES = (("/simfs/in.img", "/simfs/out"), ("/simfs/my dir/in file.img", "/simfs/my dir/out file"),
+               ("in.img", "out"), ("/simfs/\u00fc/\u00efn.img", "/simfs/\u00fc/\u00f6ut"),
+               ("/simfs/a/b/../in.img", "/simfs/a/./out"))
+
+
+def paths_for(tool, style):
+    i, o = NAME_STYLES[style % len(NAME_STYLES)]
+    return i, o + (".png" if tool == "veftopng" else ".img")
+
+
+VALUE_OPTS = ("-w", "-r", "-s")
+
+
+def spell_argv(tool, opts, seed):
+    """Another spelling of the same option list, as argparse and int() accept it: value
+    attached (-w16), '=' form (-w=16), '+' sign, leading zeros, digit-group underscore,
+    the option given twice (last one wins).  seed 0 = canonical."""
+    if not seed:
+        return list(opts)
+    import random
+    r = random.Random(seed)
+    out = []
+    i = 0
+    while i < len(opts):
+        o = opts[i]
+        if o in VALUE_OPTS and i + 1 < len(opts):
+            v = opts[i + 1]
+            c = r.random()
+            if c < 0.15 and len(v) > 1:
+                v2 = v[0] + "_" + v[1:]
+            elif c < 0.3:
+                v2 = "+" + v
+            elif c < 0.45:
+                v2 = "0" * r.randint(1, 3) + v
+            else:
+                v2 = v
+            if r.random() < 0.15:
+                out += [o, str(r.randint(1, 50))]          # overridden by the later occurrence
+            form = r.random()
+            # "-s10"/"-s11" are pixel modes of maxtoppm, so -s is never attached there
+            if form < 0.25 and not (tool == "maxtoppm" and o == "-s") and not v2.startswith(("+", "_")):
+                out.append(o + v2)
+            elif form < 0.4 and not v2.startswith("+"):
+                out.append(o + "=" + v2)
+            else:
+                out += [o, v2]
+            i += 2
+        else:
+            out.append(o)
+            i += 1
+    return out
+
+
 def _opt(opts, name, default):
     if name in opts:
         try:
@@ -57,11 +112,16 @@ def step_budget(tool, opts, data):
 class Env:
     """The I/O environment of one run (what the scheduler decides)."""
     __slots__ = ("in_kind", "out_kind", "in_chunk", "out_chunk", "in_seed", "out_seed", "out_pre",
-                 "unbuf")
+                 "unbuf", "names", "spell", "late_opts", "inplace")
 
     def __init__(self, in_kind="path", out_kind="path", in_chunk="whole", out_chunk="whole",
-                 in_seed=0, out_seed=0, out_pre=0, unbuf=False):
+                 in_seed=0, out_seed=0, out_pre=0, unbuf=False, names=0, spell=0, late_opts=False,
+                 inplace=False):
+        self.inplace = inplace      # output written over the input file (veftopng reads first)
         self.unbuf = unbuf          # the interpreter runs with -u / PYTHONUNBUFFERED=1
+        self.names = names          # file-name style (NAME_STYLES)
+        self.spell = spell          # seed of an alternative spelling of the option list
+        self.late_opts = late_opts  # options after the positional arguments
         self.in_kind, self.out_kind = in_kind, out_kind
         self.in_chunk, self.out_chunk = in_chunk, out_chunk
         self.in_seed, self.out_seed = in_seed, out_seed
@@ -75,13 +135,19 @@ class Env:
         return cls(**d)
 
     def key(self):
-        return (self.in_kind, self.out_kind,
+        return (self.in_kind, self.out_kind if not self.inplace else "inplace",
                 self.in_chunk if self.in_kind != "path" else "-",
                 ("unbuffered" if self.unbuf else self.out_chunk) if self.out_kind != "path"
                 else ("pre%d" % self.out_pre if self.out_pre else "-"))
 
 
 def env_valid(tool, env):
+    if env.inplace and not (tool == "veftopng" and env.in_kind == "path" and env.out_kind == "path"):
+        return False
+    if env.in_kind == "fifo":
+        # a named pipe given as the input file: fine for every tool that does not ask for the
+        # file's size (pixtopgm does)
+        return tool != "pixtopgm" and (env.out_kind == "path" or tool in STDOUT_OK)
     if env.in_kind != "path" and tool not in STDIN_OK:
         return False
     if env.out_kind != "path" and tool not in STDOUT_OK:
@@ -93,17 +159,20 @@ def env_valid(tool, env):
 
 
 def build_argv(opts, env, tool=None):
-    argv = list(opts)
+    argv = spell_argv(tool, opts, env.spell)
+    inp, outp = paths_for(tool, env.names)
+    if env.inplace:
+        inp = outp
     pos = []
-    if env.in_kind == "path":
-        pos.append(IN_PATH)
+    if env.in_kind in ("path", "fifo"):
+        pos.append(inp)
     elif env.in_kind == "dash":
         pos.append("-")
     if env.out_kind == "path":
-        pos.append(out_path(tool))
+        pos.append(outp)
     elif env.out_kind == "dash":
         pos.append("-")
-    return argv + pos
+    return pos + argv if env.late_opts and pos else argv + pos
 
 
 class Run:
@@ -121,27 +190,31 @@ class Run:
                       self.event_digest, self.short, self.dmg_site)
 
 
-def simulate(tool, opts, data: bytes, env: Env, damaged=(), boundaries=(), budget=None) -> Run:
+def simulate(tool, opts, data: bytes, env: Env, damaged=(), boundaries=(), budget=None, wall=None) -> Run:
     argv = build_argv(opts, env, tool)
-    outp = out_path(tool)
+    inp, outp = paths_for(tool, env.names)
+    if env.inplace:
+        inp = outp
     budget = budget or step_budget(tool, opts, data)
     sin = ChunkSchedule(env.in_chunk, env.in_seed, boundaries)
     sout = ChunkSchedule(env.out_chunk, env.out_seed)
-    use_stdin = env.in_kind != "path"
+    use_stdin = env.in_kind not in ("path", "fifo")
     w = World(stdin_data=data if use_stdin else None, stdin_sched=sin, stdout_sched=sout,
               stdin_damaged=damaged if use_stdin else (), vcwd=VCWD_OF_PROCESS,
               stdout_unbuffered=env.unbuf)
     with w:
-        if not use_stdin:
-            w.fs.put(IN_PATH, data, damaged)
-        if env.out_kind == "path" and env.out_pre:
+        if env.in_kind == "fifo":
+            w.fs.fifos[w._vpath(inp, writing=True)] = (bytes(data), sin, list(damaged))
+        elif not use_stdin:
+            w.fs.put(w._vpath(inp, writing=True), data, damaged)
+        if env.out_kind == "path" and env.out_pre and not env.inplace:
             import random as _r
-            w.fs.put(outp, _r.Random(env.out_seed).randbytes(env.out_pre))
-        o = run_tool(w, tool, argv, budget)
+            w.fs.put(w._vpath(outp, writing=True), _r.Random(env.out_seed).randbytes(env.out_pre))
+        o = run_tool(w, tool, argv, budget, wall)
     r = Run()
     r.tool, r.argv, r.outcome, r.steps, r.budget = tool, argv, o, o.steps, budget
     if env.out_kind == "path":
-        r.out = w.fs.get(outp)
+        r.out = w.fs.get(w._vpath(outp, writing=True))
         r.out_present = r.out is not None
         r.stdout_text = w.stdout_bytes().decode("utf-8", "replace")
     else:
@@ -149,7 +222,7 @@ def simulate(tool, opts, data: bytes, env: Env, damaged=(), boundaries=(), budge
         r.out_present = True
         r.stdout_text = ""
     r.removed = list(w.fs.removed)
-    rd = w.stdin_buf if use_stdin else (w.fs.readers.get(IN_PATH) or [None])[0]
+    rd = w.stdin_buf if use_stdin else (w.fs.readers.get(w._vpath(inp, writing=True)) or [None])[0]
     r.short = rd.short if rd else None
     r.dmg_site = rd.dmg_site if rd else None
     r.consumed = rd.consumed_damage() if rd else False
